@@ -179,6 +179,7 @@ class RealSingleton:
     self.dec = sg.SingletonDecorator(Probe)
     for k in sc.info["lock_attrs"]:
       setattr(self.dec, k, R.LockProxy(d, "decorator.%s" % k))
+    R.auto_proxy(d, sc, {"decorator": self.dec})
     R.shared_attr(d, self.dec, "instance", "instance")
     # locks made on demand: the attribute is shared, and the module's lock constructor hands out proxies in allocation order
     self.patched = {}
@@ -271,6 +272,7 @@ class RealTSA:
     desc = Thing.__dict__["x"]
     for k in sc.info["lock_attrs"]:
       setattr(desc, k, R.LockProxy(d, "desc.%s" % k))
+    R.auto_proxy(d, sc, {"desc": desc})
     for a in sc.info["shared_attrs"]:
       if not hasattr(desc, a):
         setattr(desc, a, None)
